@@ -794,6 +794,9 @@ func (s *State) execAppend(call *ssa.Call, args []ssa.Value) ([]*State, bool) {
 	q := c.fresh("j")
 	// the reallocated array holds a copy of the old elements
 	s.assert(fmt.Sprintf("(forall ((%s Int)) (=> (and (<= 0 %s) (< %s %s)) (= (select %s (idx 0 %s)) (select %s (idx (s.off %s) %s)))))", q, q, q, ln, An, q, Aold, x, q))
+	// the same fact over absolute positions of the new array (contracts that speak about positions, not indices)
+	qa := c.fresh("p")
+	s.assert(fmt.Sprintf("(forall ((%s Int)) (! (=> (and (<= 0 %s) (< %s %s)) (= (select %s %s) (select %s (+ (s.off %s) %s)))) :pattern ((select %s %s))))", qa, qa, qa, ln, An, qa, Aold, x, qa, An, qa))
 	var Afit, Anew Term
 	if k > 0 {
 		Afit, Anew = Aold, An
